@@ -126,6 +126,17 @@ def pattern_settings():
         mk([C(min_=0), C(min_=0)], [C(min_=2), C(min_=2)], name='assigning min 2 repeatable (targets)'),
         mk([C([1])], [C([1])], name='exactly one matrix'),
     ]
+    # the same variable has more options in one existence pattern than in another, and is inactive only in the smaller
+    # one (merging of per-pattern variables and of their conditionally-active flags)
+    from spec.conn import pattern as _p
+    out += [
+        mk([C([1, 2], rep=False)], [C([0, 1], rep=False), C([0, 1], rep=False), C([0, 1], rep=False)],
+           patterns=[_p(1, 3), _p(1, 3, tgt_absent=[2])], name='flag merge 1x3 third target conditional'),
+        mk([C([0, 1], rep=False), C([0, 1], rep=False), C([0, 1], rep=False)], [C([1, 2], rep=False)],
+           patterns=[_p(3, 1), _p(3, 1, src_absent=[0])], name='flag merge 3x1 first source conditional'),
+        mk([C([1, 2]), C([0, 1])], [C([0, 1, 2]), C([0, 1])],
+           patterns=[_p(2, 2), _p(2, 2, tgt_absent=[1]), _p(2, 2, src_override={0: [1]})], name='flag merge 2x2'),
+    ]
     return out
 
 
@@ -218,7 +229,8 @@ def instances(tier, seed):
     if tier == 'quick':
         # settings written for one encoder family are always run with that family
         for sub, kind_ in (('recursive enumeration', 'enum'), ('assigning min 2', 'pattern'), ('assigning min 2', 'lazy'),
-                           ('partitioning', 'pattern'), ('11 matrices', 'eager'), ('connecting', 'pattern'), ('27 matrices', 'enum')):
+                           ('partitioning', 'pattern'), ('11 matrices', 'eager'), ('connecting', 'pattern'), ('27 matrices', 'enum'),
+                           ('flag merge', 'eager'), ('flag merge', 'lazy'), ('flag merge', 'enum')):
             for f_idx, (kind, i_enc, _) in enumerate(facs):
                 if kind != kind_:
                     continue
@@ -548,16 +560,24 @@ def run_instance(inst, tier='quick', seed=0):
             missing = [k_ for k_ in got_keys if k_ not in listed_keys]
             extra = [k_ for k_ in listed_keys if k_ not in got_keys]
             diff_act = [k_ for k_ in got_keys if k_ in listed_keys and listed_keys[k_] != got_keys[k_]]
-            what = 'activeness' if diff_act and not missing and not extra else ('not_listed' if missing else 'listed_not_reached')
-            example = (diff_act or missing or extra)[0]
-            prop_ = 'C07' if what == 'activeness' else PROP
-            cause = cause_of(example, got_keys.get(example), listed_keys.get(example)) if what == 'activeness' else 'other'
-            _viol(res, 'all_design_vectors', dict(kind=f'all_dv_{what}', encoder=f'{kind}{i_enc}', encoder_class=enc_name.split('(')[0], imputer=i_imp,
-                                                  settings=pool.settings_label(s), pattern=pl, cause=cause), cfg,
-                  dict(pattern=pl, k_pat=k_pat, vector=list(example)),
-                  dict(corrected_vectors=len(got_keys), listed=len(listed_keys), example=list(example),
-                       decode_active=got_keys.get(example), listed_active=listed_keys.get(example)),
-                  'get_all_design_vectors()[pattern] == set of corrected vectors, -1 exactly where inactive', prop=prop_)
+            if diff_act:
+                # activeness of a listed vector differs from what decoding reports for it: C07 (whatever else is wrong)
+                example = diff_act[0]
+                _viol(res, 'all_design_vectors', dict(kind='all_dv_activeness', encoder=f'{kind}{i_enc}', encoder_class=enc_name.split('(')[0], imputer=i_imp,
+                                                      settings=pool.settings_label(s), pattern=pl, cause=cause_of(example, got_keys.get(example), listed_keys.get(example))), cfg,
+                      dict(pattern=pl, k_pat=k_pat, vector=list(example)),
+                      dict(corrected_vectors=len(got_keys), listed=len(listed_keys), example=list(example),
+                           decode_active=got_keys.get(example), listed_active=listed_keys.get(example)),
+                      'get_all_design_vectors()[pattern] == set of corrected vectors, -1 exactly where inactive', prop='C07')
+            if missing or extra:
+                what = 'not_listed' if missing else 'listed_not_reached'
+                example = (missing or extra)[0]
+                _viol(res, 'all_design_vectors', dict(kind=f'all_dv_{what}', encoder=f'{kind}{i_enc}', encoder_class=enc_name.split('(')[0], imputer=i_imp,
+                                                      settings=pool.settings_label(s), pattern=pl, cause='other'), cfg,
+                      dict(pattern=pl, k_pat=k_pat, vector=list(example)),
+                      dict(corrected_vectors=len(got_keys), listed=len(listed_keys), example=list(example),
+                           decode_active=got_keys.get(example), listed_active=listed_keys.get(example)),
+                      'get_all_design_vectors()[pattern] == set of corrected vectors, -1 exactly where inactive')
         else:
             res['discharged'] += 1
 
